@@ -601,7 +601,57 @@ as written (`d3`) only the value is copied and the info bits of `first` stay. -/
 def replaceCandidate (d3 : Bool) (first second : Bound) : Bound :=
   if d3 then ⟨second.value, first.open⟩ else second
 
-/-- `mul_assign` — the nine-case sign table as written -/
+/-- the last case of the table of `mul_assign`: `xl < 0 < xu`, `yl < 0 < yu` -/
+def mulStraddle (d3 : Bool) (p : Policy) (R : Rounding) (x y : Iv) : Iv :=
+  let tmpL := bMul p R .lower p .upper x.hi p .lower y.lo
+  let toL := bMul p R .lower p .lower x.lo p .upper y.hi
+  let lo := if gt p .lower toL p .lower tmpL then replaceCandidate d3 toL tmpL else toL
+  let tmpU := bMul p R .upper p .upper x.hi p .upper y.hi
+  let toU := bMul p R .upper p .lower x.lo p .lower y.lo
+  let hi := if lt p .upper toU p .upper tmpU then replaceCandidate d3 toU tmpU else toU
+  ⟨lo, hi⟩
+
+/-- the nine-case sign table of `mul_assign` as written (`straddle` is the value of its last case) -/
+def mulTable (p : Policy) (R : Rounding) (x y : Iv) (xls xus yls yus : Int) (straddle : Iv) : Iv :=
+  if xls ≥ 0 then
+    if yls ≥ 0 then
+      -- 0 <= xl <= xu, 0 <= yl <= yu
+      ⟨bMulZ p R .lower p .lower x.lo xls p .lower y.lo yls,
+       bMulZ p R .upper p .upper x.hi xus p .upper y.hi yus⟩
+    else if yus ≤ 0 then
+      -- 0 <= xl <= xu, yl <= yu <= 0
+      ⟨bMulZ p R .lower p .upper x.hi xus p .lower y.lo yls,
+       bMulZ p R .upper p .lower x.lo xls p .upper y.hi yus⟩
+    else
+      -- 0 <= xl <= xu, yl < 0 < yu
+      ⟨bMulZ p R .lower p .upper x.hi xus p .lower y.lo yls,
+       bMulZ p R .upper p .upper x.hi xus p .upper y.hi yus⟩
+  else if xus ≤ 0 then
+    if yls ≥ 0 then
+      -- xl <= xu <= 0, 0 <= yl <= yu
+      ⟨bMulZ p R .lower p .lower x.lo xls p .upper y.hi yus,
+       bMulZ p R .upper p .upper x.hi xus p .lower y.lo yls⟩
+    else if yus ≤ 0 then
+      -- xl <= xu <= 0, yl <= yu <= 0
+      ⟨bMulZ p R .lower p .upper x.hi xus p .upper y.hi yus,
+       bMulZ p R .upper p .lower x.lo xls p .lower y.lo yls⟩
+    else
+      -- xl <= xu <= 0, yl < 0 < yu
+      ⟨bMulZ p R .lower p .lower x.lo xls p .upper y.hi yus,
+       bMulZ p R .upper p .lower x.lo xls p .lower y.lo yls⟩
+  else if yls ≥ 0 then
+    -- xl < 0 < xu, 0 <= yl <= yu
+    ⟨bMulZ p R .lower p .lower x.lo xls p .upper y.hi yus,
+     bMulZ p R .upper p .upper x.hi xus p .upper y.hi yus⟩
+  else if yus ≤ 0 then
+    -- xl < 0 < xu, yl <= yu <= 0
+    ⟨bMulZ p R .lower p .upper x.hi xus p .lower y.lo yls,
+     bMulZ p R .upper p .lower x.lo xls p .lower y.lo yls⟩
+  else
+    -- xl < 0 < xu, yl < 0 < yu
+    straddle
+
+/-- `mul_assign` -/
 def mulAssign (d3 : Bool) (p : Policy) (R : Rounding) (x y : Iv) : Iv :=
   if checkEmptyArg p x || checkEmptyArg p y then Iv.empty
   else
@@ -614,49 +664,7 @@ def mulAssign (d3 : Bool) (p : Policy) (R : Rounding) (x y : Iv) : Iv :=
     else
       let sy := infinitySign p y
       if sy != 0 then mulInf p sy xls xus
-      else if xls ≥ 0 then
-        if yls ≥ 0 then
-          -- 0 <= xl <= xu, 0 <= yl <= yu
-          ⟨bMulZ p R .lower p .lower x.lo xls p .lower y.lo yls,
-           bMulZ p R .upper p .upper x.hi xus p .upper y.hi yus⟩
-        else if yus ≤ 0 then
-          -- 0 <= xl <= xu, yl <= yu <= 0
-          ⟨bMulZ p R .lower p .upper x.hi xus p .lower y.lo yls,
-           bMulZ p R .upper p .lower x.lo xls p .upper y.hi yus⟩
-        else
-          -- 0 <= xl <= xu, yl < 0 < yu
-          ⟨bMulZ p R .lower p .upper x.hi xus p .lower y.lo yls,
-           bMulZ p R .upper p .upper x.hi xus p .upper y.hi yus⟩
-      else if xus ≤ 0 then
-        if yls ≥ 0 then
-          -- xl <= xu <= 0, 0 <= yl <= yu
-          ⟨bMulZ p R .lower p .lower x.lo xls p .upper y.hi yus,
-           bMulZ p R .upper p .upper x.hi xus p .lower y.lo yls⟩
-        else if yus ≤ 0 then
-          -- xl <= xu <= 0, yl <= yu <= 0
-          ⟨bMulZ p R .lower p .upper x.hi xus p .upper y.hi yus,
-           bMulZ p R .upper p .lower x.lo xls p .lower y.lo yls⟩
-        else
-          -- xl <= xu <= 0, yl < 0 < yu
-          ⟨bMulZ p R .lower p .lower x.lo xls p .upper y.hi yus,
-           bMulZ p R .upper p .lower x.lo xls p .lower y.lo yls⟩
-      else if yls ≥ 0 then
-        -- xl < 0 < xu, 0 <= yl <= yu
-        ⟨bMulZ p R .lower p .lower x.lo xls p .upper y.hi yus,
-         bMulZ p R .upper p .upper x.hi xus p .upper y.hi yus⟩
-      else if yus ≤ 0 then
-        -- xl < 0 < xu, yl <= yu <= 0
-        ⟨bMulZ p R .lower p .upper x.hi xus p .lower y.lo yls,
-         bMulZ p R .upper p .lower x.lo xls p .lower y.lo yls⟩
-      else
-        -- xl < 0 < xu, yl < 0 < yu
-        let tmpL := bMul p R .lower p .upper x.hi p .lower y.lo
-        let toL := bMul p R .lower p .lower x.lo p .upper y.hi
-        let lo := if gt p .lower toL p .lower tmpL then replaceCandidate d3 toL tmpL else toL
-        let tmpU := bMul p R .upper p .upper x.hi p .upper y.hi
-        let toU := bMul p R .upper p .lower x.lo p .lower y.lo
-        let hi := if lt p .upper toU p .upper tmpU then replaceCandidate d3 toU tmpU else toU
-        ⟨lo, hi⟩
+      else mulTable p R x y xls xus yls yus (mulStraddle d3 p R x y)
 
 /-- `div_assign` -/
 def divAssign (p : Policy) (R : Rounding) (x y : Iv) : Iv :=
@@ -768,8 +776,18 @@ def cc76Widening (p : Policy) (x y : Iv) (stops : List Rat) : Iv :=
       else x
     | _, _ => x
 
+/-- a candidate that is replaced in the straddle/straddle case carries an OPEN bit different from
+the one that replaces it -/
+def straddleFlagsDiffer (p : Policy) (R : Rounding) (x y : Iv) : Bool :=
+  let tmpL := bMul p R .lower p .upper x.hi p .lower y.lo
+  let toL := bMul p R .lower p .lower x.lo p .upper y.hi
+  let tmpU := bMul p R .upper p .upper x.hi p .upper y.hi
+  let toU := bMul p R .upper p .lower x.lo p .lower y.lo
+  (gt p .lower toL p .lower tmpL && toL.open != tmpL.open)
+    || (lt p .upper toU p .upper tmpU && toU.open != tmpU.open)
+
 /-- defect 3 acts on this operand pair: the straddle/straddle case of `mul_assign` is reached and
-a candidate that is replaced carries an OPEN bit different from the one that replaces it -/
+`straddleFlagsDiffer` -/
 def d3Differs (p : Policy) (R : Rounding) (x y : Iv) : Bool :=
   if checkEmptyArg p x || checkEmptyArg p y then false
   else
@@ -777,15 +795,13 @@ def d3Differs (p : Policy) (R : Rounding) (x y : Iv) : Bool :=
     let xus := if xls > 0 then 1 else sgnB p .upper x.hi
     let yls := sgnB p .lower y.lo
     let yus := if yls > 0 then 1 else sgnB p .upper y.hi
-    if infinitySign p x != 0 || infinitySign p y != 0 then false
-    else if xls ≥ 0 || xus ≤ 0 || yls ≥ 0 || yus ≤ 0 then false
-    else
-      let tmpL := bMul p R .lower p .upper x.hi p .lower y.lo
-      let toL := bMul p R .lower p .lower x.lo p .upper y.hi
-      let tmpU := bMul p R .upper p .upper x.hi p .upper y.hi
-      let toU := bMul p R .upper p .lower x.lo p .lower y.lo
-      (gt p .lower toL p .lower tmpL && toL.open != tmpL.open)
-        || (lt p .upper toU p .upper tmpU && toU.open != tmpU.open)
+    if infinitySign p x != 0 then false
+    else if infinitySign p y != 0 then false
+    else if xls ≥ 0 then false
+    else if xus ≤ 0 then false
+    else if yls ≥ 0 then false
+    else if yus ≤ 0 then false
+    else straddleFlagsDiffer p R x y
 
 /-- the arithmetic operations, for the uniform statement of the enclosure theorem -/
 inductive IvOp where
